@@ -1,5 +1,222 @@
-//! C10 - monitor not written yet.
+//! C10 - distinfo files round-trip byte-exactly, including non-UTF-8 names.
+//!
+//! Refuting events: `Distinfo::from_bytes(T).as_bytes() != T` for canonical T
+//! (also piecewise through `Entry::as_bytes`); for a `Distinfo` assembled with
+//! `set_rcsid`/`insert`, parsing `as_bytes()` does not return the same RCS Id,
+//! names in the same order per kind, checksums in order, sizes.
+//!
+//! Oracle: by construction - the generator renders T from a model
+//! (`oracle::distinfo::render_canonical`) and assembles the same model
+//! through the API.
 
-use crate::fw::Cx;
+use crate::fw::{show, CaseResult, Cx, Ev};
+use crate::gen::distinfo as gd;
+use crate::oracle::distinfo::{
+    compare_rcsid, compare_structure, render_canonical, DocModel, FileModel, Kind,
+};
+use crate::rng::hash_strs;
+use pkgsrc::distinfo::{Checksum, Distinfo, Entry};
+use std::ffi::{OsStr, OsString};
+use std::os::unix::ffi::{OsStrExt, OsStringExt};
 
-pub fn run(_cx: &mut Cx) {}
+fn clip(b: &[u8]) -> String {
+    if b.len() > 1000 {
+        format!("{}...[{} bytes]", show(&b[..1000]), b.len())
+    } else {
+        show(b)
+    }
+}
+
+fn first_diff(a: &[u8], b: &[u8]) -> usize {
+    a.iter().zip(b.iter()).position(|(x, y)| x != y).unwrap_or(a.len().min(b.len()))
+}
+
+fn count_doc(ev: &mut Ev, m: &DocModel, what: &str) -> bool {
+    ev.count(&format!("docs/{what}"));
+    ev.add("files/distfiles", m.dist.len() as u64);
+    ev.add("files/patches", m.patch.len() as u64);
+    if m.dist.is_empty() && m.patch.is_empty() {
+        ev.count("docs/no-files");
+    }
+    match &m.rcsid {
+        None => ev.count("rcsid/unexpanded"),
+        Some(r) => {
+            if std::str::from_utf8(r).is_err() {
+                ev.count("rcsid/non-utf8");
+            } else {
+                ev.count("rcsid/utf8");
+            }
+            if r.ends_with(b" ") || r.ends_with(b"\t") {
+                ev.count("rcsid/trailing-blank");
+            }
+        }
+    }
+    let mut high = false;
+    for f in m.files() {
+        for c in gd::danger_classes(&f.name) {
+            ev.count(&format!("name-byte/{c}"));
+        }
+        if f.name.contains(&b'/') {
+            ev.count("name/dist-subdir");
+        }
+        if f.name.iter().any(|&b| b >= 0x80) {
+            high = true;
+            if std::str::from_utf8(&f.name).is_err() {
+                ev.count("name/non-utf8");
+            } else {
+                ev.count("name/utf8-multibyte");
+            }
+        }
+        if f.size == Some(u64::MAX) {
+            ev.count("size/u64-max");
+        }
+        if f.kind == Kind::Dist && f.size.is_none() {
+            ev.count("api/distfile-without-size");
+        }
+        if f.sums.is_empty() {
+            ev.count("api/size-only-entry");
+        }
+        ev.max("max/checksums-per-file", f.sums.len() as u64);
+    }
+    high
+}
+
+/// Canonical text -> parse -> write: byte-exact.
+fn parse_write(ev: &mut Ev, m: &DocModel, text: &[u8]) -> CaseResult {
+    let high = count_doc(ev, m, "parse-write");
+    let di = Distinfo::from_bytes(text);
+    let out = di.as_bytes();
+    ev.eval();
+    if out != text {
+        let at = first_diff(&out, text);
+        return Err(format!(
+            "as_bytes() differs from the canonical input at byte {at}: wrote {:?}",
+            clip(&out)
+        )
+        .into());
+    }
+    // The same through Entry::as_bytes: header, then every distfile entry,
+    // then every patch entry.
+    let mut pieces = vec![];
+    match di.rcsid() {
+        Some(r) => pieces.extend_from_slice(r.as_bytes()),
+        None => pieces.extend_from_slice(b"$NetBSD$"),
+    }
+    pieces.extend_from_slice(b"\n\n");
+    for e in di.distfiles() {
+        pieces.extend_from_slice(&e.as_bytes());
+    }
+    for e in di.patchfiles() {
+        pieces.extend_from_slice(&e.as_bytes());
+    }
+    ev.eval();
+    if pieces != text {
+        let at = first_diff(&pieces, text);
+        return Err(format!(
+            "rcsid() + Entry::as_bytes() of all entries differs from the canonical input at byte {at}: {:?}",
+            clip(&pieces)
+        )
+        .into());
+    }
+    if high {
+        ev.nontrivial(hash_strs(&[text]));
+    }
+    Ok(())
+}
+
+fn to_entry(f: &FileModel) -> Entry {
+    let sums: Vec<Checksum> =
+        f.sums.iter().map(|(a, h)| Checksum::new(a.lib(), h.clone())).collect();
+    let mut full = b"/distfiles/".to_vec();
+    full.extend_from_slice(&f.name);
+    Entry::new(OsStr::from_bytes(&f.name), OsStr::from_bytes(&full), sums, f.size)
+}
+
+/// API -> write -> parse: same RCS Id, files, order, checksums, sizes.
+fn api_write_parse(ev: &mut Ev, m: &DocModel, order: &[FileModel]) -> CaseResult {
+    let high = count_doc(ev, m, "api-write-parse");
+    let mut di = Distinfo::new();
+    if let Some(r) = &m.rcsid {
+        di.set_rcsid(&OsString::from_vec(r.clone()));
+    }
+    for f in order {
+        di.insert(to_entry(f));
+    }
+    // the assembled object itself
+    ev.evals(compare_structure(&di, m, true).map_err(|s| format!("assembled Distinfo: {s}"))?);
+    let text = di.as_bytes();
+    let back = Distinfo::from_bytes(&text);
+    ev.eval();
+    compare_rcsid(&back, &m.rcsid).map_err(|s| format!("{s}; written text {:?}", clip(&text)))?;
+    ev.evals(
+        compare_structure(&back, m, true)
+            .map_err(|s| format!("after write+parse: {s}; written text {:?}", clip(&text)))?,
+    );
+    if high {
+        ev.nontrivial(hash_strs(&[&text]));
+    }
+    Ok(())
+}
+
+pub fn run(cx: &mut Cx) {
+    cx.default_budget();
+    for (k, _) in gd::DANGER {
+        cx.ev.require(&format!("name-byte/{k}"));
+    }
+    for k in [
+        "docs/parse-write",
+        "docs/api-write-parse",
+        "rcsid/unexpanded",
+        "rcsid/non-utf8",
+        "rcsid/trailing-blank",
+        "name/dist-subdir",
+        "name/non-utf8",
+        "name/utf8-multibyte",
+        "size/u64-max",
+        "files/distfiles",
+        "files/patches",
+    ] {
+        cx.ev.require(k);
+    }
+
+    // (a) canonical text -> from_bytes -> as_bytes
+    let n = cx.per_shard(160, 20_000, 300_000, 3_000_000);
+    let mut r = cx.stream("parse-write");
+    for _ in 0..n {
+        let m = gd::canonical_doc(&mut r);
+        let text = render_canonical(&m);
+        cx.check(
+            || format!("canonical distinfo text {:?}", clip(&text)),
+            |ev| parse_write(ev, &m, &text),
+        );
+    }
+
+    // (b) assembled through the API -> as_bytes -> from_bytes
+    let n = cx.per_shard(120, 12_000, 180_000, 1_800_000);
+    let mut r = cx.stream("api-write-parse");
+    for _ in 0..n {
+        let (m, order) = gd::api_doc(&mut r);
+        cx.check(
+            || {
+                let ins: Vec<String> = order
+                    .iter()
+                    .map(|f| {
+                        format!(
+                            "{}:{:?} size={:?} sums={:?}",
+                            f.kind.name(),
+                            show(&f.name),
+                            f.size,
+                            f.sums.iter().map(|(a, h)| format!("{}={h}", a.keyword())).collect::<Vec<_>>()
+                        )
+                    })
+                    .collect();
+                format!(
+                    "Distinfo assembled with set_rcsid({:?}) and insert() of [{}]",
+                    m.rcsid.as_deref().map(show),
+                    ins.join("; ")
+                )
+            },
+            |ev| api_write_parse(ev, &m, &order),
+        );
+    }
+}
